@@ -24,6 +24,11 @@ pub struct Subst {
     pub trail: Vec<usize>,
     /// set when a unification bound a variable to a term containing it
     pub occurs_hit: bool,
+    /// evaluator for built-in function terms met during unification (the engine evaluates a function term wherever
+    /// unification meets it, also as an argument of a complex term or an element of a list); None: functions are inert
+    pub func_eval: Option<fn(&Subst, &str, &[RT]) -> Result<RT, String>>,
+    /// set when such an evaluation was outside the function's domain
+    pub func_err: Option<String>,
 }
 
 impl Subst {
@@ -75,6 +80,13 @@ impl Subst {
         let b = self.walk(b);
         match (&a, &b) {
             (RT::Anon, _) | (_, RT::Anon) => true,
+            (RT::Func(..), _) | (_, RT::Func(..)) if self.func_eval.is_some() => {
+                let ev = self.func_eval.unwrap();
+                let side = |t: &RT, me: &Subst| -> Result<RT, String> { match t { RT::Func(n, args) => ev(me, n, args), o => Ok(o.clone()) } };
+                let x = match side(&a, self) { Ok(v) => v, Err(e) => { self.func_err = Some(e); return false; } };
+                let y = match side(&b, self) { Ok(v) => v, Err(e) => { self.func_err = Some(e); return false; } };
+                self.unify(&x, &y)
+            }
             (RT::Var(x), RT::Var(y)) => { if x != y { self.set(*x, RT::Var(*y)); } true }
             (RT::Var(x), t) | (t, RT::Var(x)) => {
                 let mut fuel = 100_000;
